@@ -18,12 +18,21 @@ compared with the model without logging (theorem c04_log_faults_invisible) and, 
 nat/nft/tproxy, with the extracted model WITH log points (sessionL), which also
 fixes where the real code logs.  helpers.log's except clauses are tied to the
 model's log_swallows by running the real log() on failing streams for every modelled
-exception class and by a fail-closed ast check."""
+exception class and by a fail-closed ast check.
+
+Foreign text: rules the session does not own carry arbitrary bytes in their comments
+(and foreign chains in their names); the kernel model prints them verbatim in the
+`-nL` listing that the real linux.ipt_chain_exists decodes and parses.  Such rules are
+present before the session and (nat, tproxy) appear while it runs — a foreign command
+applied at STARTED.  The real ipt_chain_exists is also run directly on random tables
+and compared with chain_in_output / chain_in_listing and with plain membership; its
+decode mode is pinned by a fail-closed ast check (codec ASCII, errors='replace')."""
 import ast
 import copy
 import errno
 import io
 import os
+import random
 import struct
 import subprocess
 import sys
@@ -33,25 +42,34 @@ PROP = "C04"
 RULE = ("sessions = method (nat, nft, tproxy, pf on FreeBSD/OpenBSD/Darwin) x plan (0-4 subnets and 0-2 name servers per family, "
         "with/without UDP (tproxy), user/group (nat)) x initial kernel state (empty, foreign rules and chains, a second instance "
         "on port p*10 or p+1 built by the real set-up, stale residue of an earlier faulted session) x exit path (dialogue cut after "
-        "every line incl. mid-line, every single failing command index k, sampled double faults, a non-HOST line in the wait loop); "
+        "every line incl. mid-line, every single failing command index k, sampled double faults, a non-HOST line in the wait loop) "
+        "x foreign free text (comments of foreign rules before and after the session's hooks, in foreign chains and inside the other "
+        "instance's chains, legal foreign chain names: Latin-1 and other bytes that are not UTF-8, lone continuation bytes, overlong / "
+        "surrogate / out-of-range sequences, valid 2-4 byte UTF-8, control characters, the text of an own chain's header on the same line) "
+        "x foreign change while the session runs (nat, tproxy: a comment rule of each text class appended/inserted after STARTED into a "
+        "chain of the table listed at tear-down, and of another table; with cuts and tear-down command faults); "
         "a case is non-trivial when at least one external command was issued or the cut fell inside the dialogue; distinct by content hash")
 TRUSTED_BASE = [
     "modelled, not verified: iptables/ip6tables/nft/pfctl command semantics of coq/Model/FwLife.v (DESIGN Appendix B): -N fails if the chain exists, -F empties, -X fails if absent/non-empty/referenced, -I c 1 prepends, -A appends, -D removes the first equal rule, -nL prints one 'Chain <name> (' header per chain; nft add table/chain idempotent, delete table removes everything; pf anchors replaced atomically, -e/-d fail when already in that state, Darwin -E/-X reference tokens, kldload fails when loaded; a failing command has no effect",
     "rules are opaque argv token lists; only the token after '-j' is interpreted (jump target); the rule bodies of a plan are taken from the fault-free run of the real set-up (their meaning is C03's subject)",
-    "rule lines of an `iptables -nL` listing never start with 'Chain <name> '; chain names contain neither blanks nor newlines",
+    "`iptables -nL` as modelled (validated by hand against iptables 1.8.9 in a network namespace): per chain a 'Chain <name> (...)' header with the name verbatim, a column header, one line per rule starting with the target name padded to 9 columns, then the rule's text with comment bytes VERBATIM (the model prints all argv tokens of the rule verbatim), a blank line; chain names contain no white space (iptables refuses them) but any other byte",
+    "no rule text contains a line feed: iptables accepts one inside --comment and prints it verbatim, which forges listing lines (finding F90; the session model tests the listing line by line, c04_output_lines / c04_chain_exists_bytes_exact relate that to the raw bytes under tbl_nolf); no NUL bytes (C strings)",
     "pf cannot be validated against a real kernel on this image (no BSD): pfctl -f replacing the main ruleset, kldunload discarding all pf state",
+    "a foreign change while the session runs is ONE command of another tool applied to the kernel model at the moment the helper writes STARTED (appending/inserting a comment rule into a chain the session does not own); the model's session has no such event: the harness compares the session's own commands with the event-free model run and the final state with the model's final state plus that command",
     "harness: monkey-patched sshuttle.linux.ssubprocess / pf.ssubprocess (call, check_output, Popen: the real pf.pfctl runs) / pf.ioctl / pf.pf_get_dev / firewall.setup_daemon / flush_systemd_dns_cache / rewrite_etc_hosts (recorder) / Method.is_supported; set-up/restore entry points wrapped to record phase marks; sys.stdout / sys.stderr replaced by recording streams that raise the injected exception",
     "logging: a stream operation either succeeds or raises an instance of a built-in exception class (Model/FwLog.v lists Exception and 35 built-in classes below it; single inheritance, compared with issubclass on every pair; sshuttle's own Fatal is never raised by a stream); every sys.stdout.flush() on this code path is the first statement of a helpers.log call (used to delimit log calls); verbosity 3 (debug3) is not exercised",
 ]
 ASSUMPTIONS = [
     "a failing external command changes nothing (no partial effect) and at most the injected commands fail",
-    "no other process changes the packet filter while the session runs (the other instance's objects are present but static)",
+    "no other process changes the packet filter while the session runs (the other instance's objects are present but static) — except, in the harness, one foreign rule added between STARTED and the tear-down (nat, tproxy)",
     "the kernel answers SIGKILL of the client / a closed control channel as EOF on the helper's stdin (modelled as a cut)",
     "body rules of a plan only jump to built-in targets or, for tproxy's tproxy chain, to the divert chain (checked on every generated plan)",
     "the general theorems c04_nat_all_exits / c04_tproxy_all_exits / c04_nft_all_exits (every plan body, every initial kernel state, every k, every cut) assume: "
-    "chain names without blanks and built-in OUTPUT/PREROUTING present in every iptables table (kst_wf), ports printed without blanks, the initial state holds "
+    "chain names without blanks and built-in OUTPUT/PREROUTING present in every iptables table (kst_wf), ports printed in 7-bit ASCII without blanks (pname_ok: they are decimal numbers, so the chain names the helper looks for are ASCII), the initial state holds "
     "no object named for the session's own ports (erase c s0 = s0; anything else is allowed), tproxy bodies respect the restore order (tp_body_ordered), "
     "nft body rules name a chain nft.py creates (nft_body_ok); nat with --user/--group (c04_all_exits_full) additionally excludes exactly the F41 command (a failing tear-down `-t mangle -D OUTPUT ... MARK`); pf (c04_pf_identity, fault-free exits only) assumes anchor names of the main ruleset and ports without newline, no anchor named for the session's ports in the start state, on Darwin the next two -E tokens not outstanding, and for the main ruleset itself FreeBSD or no `set skip on lo`",
+    "chain listing: c04_chain_exists_exact (the line-by-line test the session model uses) holds for ARBITRARY bytes in rule text and in the other chains' names; "
+    "c04_chain_exists_bytes_exact (decode + split on the raw output, as the code does it) needs rule text and chain names without line feeds (tbl_nolf; F90 otherwise)",
     "log faults: the theorems c04_log_total / c04_log_faults_invisible / c04_log_faults_same_commands assume that every exception a write or flush of the "
     "helper's stdout/stderr raises is an OSError or a ValueError (any subclass) — what the except clauses of helpers.log name; sessionL models the log "
     "points of nat, nft and tproxy sessions (pf logs inside pfctl(): harness only)",
@@ -783,7 +801,7 @@ def odd_chain_name(rng, kind, port):
     return rng.choice([b"Chain", b"DOCKER", b"sshuttle-x", b"sshuttle-%d-x" % port, b"ssh\x01ttle", b"sshuttle-%d\x7f" % port])
 
 
-def foreign_state(rng, st, odd="any", port=1230):
+def foreign_state(rng, st, odd="ascii", port=1230, orng=None):
     """foreign rules and chains in every table; mutates and returns st.  odd: which bytes the free text of foreign
     rules and the foreign chain names carry (any | valid = everything that still is valid UTF-8 | ascii)"""
     for key in ("v6nat", "v6mangle", "v4nat", "v4mangle"):
@@ -796,6 +814,7 @@ def foreign_state(rng, st, odd="any", port=1230):
             t[b] = list(t[b]) + [[b"-j", fc], [b"-p", b"udp", b"-j", b"ACCEPT"]][: rng.randint(1, 2)]
         if odd != "ascii":
             kinds = ["invalid", "utf8", "ctrl", "ascii"] if odd == "any" else ["utf8", "ctrl", "ascii"]
+            rng0, rng = rng, (orng or rng)      # the odd parts draw from their own stream (derived from the same seed)
             # a second foreign chain with an odd (but legal) name, jumped to from a built-in chain
             nm = odd_chain_name(rng, rng.choice(kinds), port)
             if nm not in t:
@@ -806,6 +825,7 @@ def foreign_state(rng, st, odd="any", port=1230):
             for b in (b"OUTPUT", b"PREROUTING", fc):
                 for _ in range(rng.randint(0, 2)):
                     t[b].insert(rng.randint(0, len(t[b])), comment_rule(rng, rng.choice(kinds), port))
+            rng = rng0
         st[key] = [(n, t[n]) for n in order]
     st["nft"].append((b"filter", [(b"input", [[b"tcp dport 22 accept"]])]))
     st["pf"]["anchors"].append((b"com.apple", b"pass all\n"))
@@ -856,6 +876,7 @@ def _correspondence(ctx, rng, quick, kern):
     pending = []          # (model line repaired, model line asfound, real observation, case info)
     pendingL = []         # (SESSIONL line, real observation, case info): runs compared with the model WITH log points
     pendingE = []         # (model line, real observation, case info): runs with a foreign change while the session runs
+    orng = random.Random("C04-odd-bytes-%d" % ctx.seed)   # free text / foreign events: own stream, same seed
 
     def one(plan, bodies, cut, faults, st_enc, kind, snapshots=False):
         real = run_real(kern, plan.method, st_enc, plan.data(cut), faults, snapshots)
@@ -876,7 +897,7 @@ def _correspondence(ctx, rng, quick, kern):
             # that still is valid UTF-8 (so that bytes which are not can APPEAR while the session runs)
             odd = {0: "none", 1: "any", 2: "valid", 3: "any"}[skind]
             if skind >= 1:
-                foreign_state(rng, st0, odd, p)
+                foreign_state(rng, st0, odd, p, orng)
             ctx.count("foreign_text_%s" % odd)
             if pf:
                 st0["pf"]["on"] = rng.random() < 0.5
@@ -890,7 +911,7 @@ def _correspondence(ctx, rng, quick, kern):
                 q = p * 10 if p < 6000 else p + 1
                 st_enc = other_instance(kern, method, q, st_enc)
                 if not pf and method != "nft":
-                    st_enc = odd_in_other_instance(rng, kern, method, q, st_enc, odd, p)
+                    st_enc = odd_in_other_instance(orng, kern, method, q, st_enc, odd, p)
             ctx.count("method_%s" % method)
             ctx.count("state_kind_%d" % skind)
             nl = len(plan.lines())
@@ -928,10 +949,10 @@ def _correspondence(ctx, rng, quick, kern):
                     ctx.count("double_faults")
             log_dimension(ctx, rng, quick, kern, plan, bodies, st_enc, base, pending, pendingL, pi)
             if method in ("nat", "tproxy"):
-                event_dimension(ctx, rng, quick, kern, plan, bodies, st_enc, base, pendingE)
+                event_dimension(ctx, orng, quick, kern, plan, bodies, st_enc, base, pendingE)
 
     log_correspondence(ctx)
-    listing_correspondence(ctx, rng, quick, kern)
+    listing_correspondence(ctx, orng, quick, kern)
 
     # ---- model side in one batch
     lines = [p[0] for p in pending]
@@ -1329,11 +1350,12 @@ def listing_correspondence(ctx, rng, quick, kern):
         if rng.random() < 0.3:      # the neighbour port: sshuttle-12300 vs sshuttle-1230
             tbl.append((b"sshuttle-%d0" % port, []))
         lf = rng.random() < 0.12    # F90: a line feed inside a comment, followed by a forged header
+        forged = None
         if lf:
-            forged = rng.choice(own)
+            forged = rng.choice([n for n in own if n not in present] or own)
             tbl[rng.randint(0, 3)][1].append([b"-m", b"comment", b"--comment",
                                               odd_text(rng, "any") + b"\nChain " + forged + b" (0 references)", b"-j", b"RETURN"])
-        probe = rng.choice(own + [b"Chain", b"DOCKER", b"sshuttle-%d0" % port])
+        probe = forged if forged and rng.random() < 0.7 else rng.choice(own + [b"Chain", b"DOCKER", b"sshuttle-%d0" % port])
         cases.append((enc_table(tbl), probe, lf))
     outs = ctx.run_driver(["CHAINEX %s %s" % (hx(n), t) for t, n, _ in cases])
     fooled = 0
